@@ -29,7 +29,7 @@ import (
 func init() {
 	register(&Engine{
 		Name: "registry",
-		Rule: "EXHAUSTIVE over the live registry (every tag, every value of every enumeration, every flag of every mask, in both directions) x every public producer/consumer (TagString, XML/JSON/text writers and XML/JSON readers, EnumName/EnumByName, MarshalText/UnmarshalText of every enum and mask Go type, AppendBitmaskString/BitmaskByStr); EXHAUSTIVE over the pinned registry handed over by the Lean driver (every pinned tag, enumeration value, flag and Go type answered by the public functions as pinned; additions = extension, counted, not a violation); typed values: every enum/mask Go type (found by reflection over the message types) x {own tag, AttributeValue, element tags the library's structures use, another enumeration's tag, a mask tag, an unregistered tag} x {every registered value, edges, random} through Encoder.TagAny (XML, JSON, text) and Decoder.TagAny (XML, JSON), and every enum/mask-valued attribute as a real kmip.Attribute; plus unregistered numbers at the table edges, powers of two, 32-bit boundaries and seeded random ones; plus odd texts derived from every 7th name and a fixed list (empty, case changed, blanks/tabs inside and around, `|`, 0x/0X hex of several widths, decimal with sign/leading zeros/out of range, near-miss names); masks: every single bit 0..31, 0, all-ones, seeded random subsets; scopes (oracle only): EVERY tag without enumeration table (AttributeValue, CustomAttribute, every registered non-enumeration tag, the mask tags, extension and unregistered tags) and every enumeration x EVERY enumeration value name registered anywhere (own odd spellings included) through EnumByName (x every registered number through EnumName, x every flag name through BitmaskByStr) and, for AttributeValue / CustomAttribute / extension / unregistered / mask tags exhaustively and a stride of the others, through the XML and JSON readers of generic items (ttlv.Value, item nested in a structure, custom kmip.Attribute), every lookup repeated (names shared by several enumerations 48 times: no dependence on map order); destinations (oracle only): every enumeration / mask Go type x {UnmarshalText, encoding/json value and struct field, encoding/xml attribute, Decoder.TagAny XML/JSON under own tag and AttributeValue} x {every own name, flag pairs and full lists in the three separators, empty, blank, numbers, malformed, partially valid lists} x destinations pre-filled with {all ones, alternating bits, 1, sign bit, other registered values, the complement of the expected result} and ONE variable reused over the whole sequence forwards and backwards. distinct = distinct protocol line; nontrivial = line about a registered entry or a non-empty text",
+		Rule: "EXHAUSTIVE over the live registry (every tag, every value of every enumeration, every flag of every mask, in both directions) x every public producer/consumer (TagString, XML/JSON/text writers and XML/JSON readers, EnumName/EnumByName, MarshalText/UnmarshalText of every enum and mask Go type, AppendBitmaskString/BitmaskByStr); EXHAUSTIVE over the pinned registry handed over by the Lean driver (every pinned tag, enumeration value, flag and Go type answered by the public functions as pinned; additions = extension, counted, not a violation); typed values: every enum/mask Go type (found by reflection over the message types) x {own tag, AttributeValue, element tags the library's structures use, another enumeration's tag, a mask tag, an unregistered tag} x {every registered value, edges, random} through Encoder.TagAny (XML, JSON, text) and Decoder.TagAny (XML, JSON), and every enum/mask-valued attribute as a real kmip.Attribute; plus unregistered numbers at the table edges, powers of two, 32-bit boundaries and seeded random ones; plus odd texts derived from every 7th name and a fixed list (empty, case changed, blanks/tabs inside and around, `|`, 0x/0X hex of several widths, decimal with sign/leading zeros/out of range, near-miss names); masks: every single bit 0..31, 0, all-ones, seeded random subsets; scopes (oracle only): EVERY tag without enumeration table (AttributeValue, CustomAttribute, every registered non-enumeration tag, the mask tags, extension and unregistered tags) and every enumeration x EVERY enumeration value name registered anywhere (own odd spellings included) through EnumByName (x every registered number through EnumName, x every flag name through BitmaskByStr) and, for AttributeValue / CustomAttribute / extension / unregistered / mask tags exhaustively and a stride of the others, through the XML and JSON readers of generic items (ttlv.Value, item nested in a structure, custom kmip.Attribute), every lookup repeated (names shared by several enumerations 48 times: no dependence on map order); destinations (oracle only): every enumeration / mask Go type x {UnmarshalText, encoding/json value and struct field, encoding/xml attribute, Decoder.TagAny XML/JSON under own tag and AttributeValue} x {every own name, flag pairs and full lists in the three separators, empty, blank, numbers, malformed, partially valid lists} x destinations pre-filled with {all ones, alternating bits, 1, sign bit, other registered values, the complement of the expected result} and ONE variable reused over the whole sequence forwards and backwards; run-time registrations (oracle only, child process): some 340 consistent ttlv.RegisterEnum / RegisterBitmask / RegisterTag calls - every enumeration of the library x {vendor value, existing pair + shared new name, more pairs than present, empty map, nil map, whole table + first unused and last number}, harness enumerations / masks on fresh extension tags in instalments, library and harness masks repeated and extended twice, library tags repeated, fresh tags three times - each followed by dump = reference for every table and every entry of the touched table, old and new, through every reader / writer (lines #reg.rt <scenario>:<tag>:<n-th call on that tag>). distinct = distinct protocol line; nontrivial = line about a registered entry or a non-empty text",
 		Run:  runRegistry,
 	})
 }
